@@ -47,6 +47,7 @@ type WorldCfg struct {
 	SortedMaps    bool          `json:"sorted_maps,omitempty"`
 	SelectOrder   string        `json:"select_order,omitempty"`
 	UnlockYield   float64       `json:"unlock_yield,omitempty"`
+	StmtYield     float64       `json:"stmt_yield,omitempty"`
 	Net           NetCfg        `json:"net"`
 	Modules       []string      `json:"modules"`
 	Flags         []string      `json:"flags,omitempty"`
@@ -123,7 +124,7 @@ func NewWorld(cfg WorldCfg) *World {
 	w := &World{cfg: cfg, ledger: newLedger(), symOf: map[string]string{}}
 	w.sim = simrt.New(simrt.Config{
 		Seed: cfg.Seed, Policy: cfg.Policy, Sticky: cfg.Sticky, PCTDepth: cfg.PCTDepth, PCTLen: cfg.PCTLen,
-		StallProb: cfg.StallProb, StallMax: cfg.StallMax, SortedMaps: cfg.SortedMaps, SelectOrder: cfg.SelectOrder, UnlockYield: cfg.UnlockYield, Trace: cfg.Trace, MaxSteps: cfg.MaxSteps,
+		StallProb: cfg.StallProb, StallMax: cfg.StallMax, SortedMaps: cfg.SortedMaps, SelectOrder: cfg.SelectOrder, UnlockYield: cfg.UnlockYield, StmtYield: cfg.StmtYield, Trace: cfg.Trace, MaxSteps: cfg.MaxSteps,
 	})
 	w.netr = simrt.NewRand(cfg.Seed, "net")
 	seedUUID(cfg.Seed)
